@@ -9,7 +9,7 @@
    (C03_sys_of_dbm_exact / _oct_ / _box_). *)
 From Coq Require Import List ZArith QArith.
 Require Import PPLV.Base.FM PPLV.Base.Sys.
-Require Import PPLV.Shapes.ExtNum PPLV.Shapes.DBM PPLV.Shapes.DBMSound PPLV.Shapes.Oct
+Require Import PPLV.Shapes.ExtNum PPLV.Shapes.DBM PPLV.Shapes.DBMSound PPLV.Shapes.DBMExact PPLV.Shapes.DBMDisjoint PPLV.Shapes.Oct
                PPLV.Shapes.Templ PPLV.Shapes.ToSys PPLV.Shapes.OctBridge.
 Local Open Scope Q_scope.
 
@@ -56,8 +56,8 @@ Theorem C03_contains_definite : forall T (C : carrier T) n x y,
 Proof. intros T C. exact (contains_sound C). Qed.
 
 Theorem C03_is_disjoint_definite : forall T (C : carrier T) n x y,
-  neg_exact C -> code_is_disjoint C n x y = true -> forall p, den C n x p -> den C n y p -> False.
-Proof. intros T C. exact (disjoint_sound C). Qed.
+  diag_inf n x -> diag_inf n y -> fixed_is_disjoint C n x y = true -> forall p, den C n x p -> den C n y p -> False.
+Proof. intros T C. exact (fixed_is_disjoint_sound C). Qed.
 
 Theorem C03_equal_definite : forall T (C : carrier T) n x y,
   code_equal C n x y = true -> forall p, den C n x p <-> den C n y p.
